@@ -126,6 +126,13 @@ def compose (g : IdGen) (ms : Int) (randInt : Int) : Int :=
   (((BitVec.ofInt 64 ms &&& BitVec.ofInt 64 g.timeMask) <<< g.timeShift.toNat)
     ||| BitVec.ofInt 64 randInt).toInt
 
+/-- `time.Duration.Milliseconds()`: `int64(d) / 1e6`, Go's truncated division. -/
+def millis (dNanos : Int) : Int := Int.tdiv dNanos 1000000
+
+/-- `IdGenerator.Generate()` when `time.Since(r.startTime)` is `dNanos` nanoseconds and the
+random source yields `randInt`. -/
+def idGenerate (g : IdGen) (dNanos : Int) (randInt : Int) : Int := compose g (millis dNanos) randInt
+
 /-! ### driver -/
 
 def showParse : ParseRes → String
